@@ -48,6 +48,8 @@ SCOPE = {"quick": "all datasets n<=3 m<=2 (701) + 400 sampled n<=6 m<=5; 18 sche
                      "schemes; 20000 sampled n<=6 m<=5 x 36 schemes; 2 variants"}
 EXHAUSTIVE = {"quick": False, "thorough": False}
 CHUNK = 4
+# every 4th case is run a second time with its datasets reached through a history (vlib.t2run._with_histories)
+VIA_EVERY = {"quick": 4, "thorough": 4}
 
 
 def gen_cases(tier, seed):
